@@ -419,3 +419,16 @@ CLAIMS["C20"] = (
     "sanitizer allocation limit) because corrupted length fields make the archive layer request gigabytes; "
     "'any byte string' is approximated by structured mutations of valid archives, not by coverage-guided fuzzing",
     "TLA+ generated mutation grid + outcome contract + TLC trace validation (+ sanitizers)")
+
+CLAIMS["C44"] = (
+    "model_checking",
+    "TLC enumerates the expression pool of module ExprPool (numbers of every kind, 52 functions, undefined functions, "
+    "relationals, logic, 17 sets, derivatives, Subs, piecewise), sums / products / powers / quotients and functions "
+    "of them (~5000 expressions) and an SBML fragment; the LaTeX, MathML, Unicode, Julia and SBML printers run on "
+    "each; TLC validates totality (a string, or an exception meaning 'not supported'; never an assertion or a foreign "
+    "exception), balanced LaTeX groups and \\left...\\right pairs and well-formed MathML (matching tag names, one root) "
+    "by pushdown automata written in TLA+ over the token sequences extracted from the output, and "
+    "parse_sbml(sbml(e)) = e on the fragment",
+    "6/C44", TRUSTED + "; the harness tokenises the printed text (braces, \\left/\\right, tags); attribute syntax and "
+    "character data of MathML are only checked lexically",
+    "TLA+ pushdown automata for well-formedness + TLC trace validation")
